@@ -93,6 +93,8 @@ func c21GenCoop(seed uint64, idx, total int, tier string) any {
 	return c
 }
 
+var c21Runs atomic.Int64
+
 func vfAs(label string, f func()) {
 	pprof.Do(context.Background(), pprof.Labels("vfpc", label), func(context.Context) { f() })
 }
@@ -153,6 +155,10 @@ func c21Run(t *testing.T, cj []byte, res *vfResult) {
 		res.Verdict, res.Detail = "error", "closers out of range"
 		return
 	}
+	// (labels are unique per run: a goroutine that an earlier run of this worker process left behind,
+	// asleep in a bubble that no longer exists, is not one of this connection's)
+	run := c21Runs.Add(1)
+	labA, labB := fmt.Sprintf("A#%d", run), fmt.Sprintf("B#%d", run)
 	var lines []string
 	var mu sync.Mutex
 	var trace []simrt.Step
@@ -173,19 +179,19 @@ func c21Run(t *testing.T, cj []byte, res *vfResult) {
 		hb, _ := nw.addHost("10.0.2.2")
 		_ = nw.Start()
 		var a, b *vfPeer
-		vfAs("A", func() { a, err = vfNewPeer("A", ha) })
+		vfAs(labA, func() { a, err = vfNewPeer("A", ha) })
 		if err != nil {
 			res.Verdict, res.Detail = "error", err.Error()
 			return
 		}
-		vfAs("B", func() { b, err = vfNewPeer("B", hb) })
+		vfAs(labB, func() { b, err = vfNewPeer("B", hb) })
 		if err != nil {
 			res.Verdict, res.Detail = "error", err.Error()
 			return
 		}
 		defer func() {
-			vfAs("A", func() { _ = a.pc.Close() })
-			vfAs("B", func() { _ = b.pc.Close() })
+			vfAs(labA, func() { _ = a.pc.Close() })
+			vfAs(labB, func() { _ = b.pc.Close() })
 			nw.Stop()
 			res.SimNs = int64(time.Since(t0))
 		}()
@@ -216,7 +222,7 @@ func c21Run(t *testing.T, cj []byte, res *vfResult) {
 		var dc *DataChannel
 		var sender *RTPSender
 		var track *TrackLocalStaticRTP
-		vfAs("A", func() {
+		vfAs(labA, func() {
 			dc, err = a.pc.CreateDataChannel("d", nil)
 			if err == nil && c.MsgMs > 0 {
 				dc.OnMessage(func(DataChannelMessage) { time.Sleep(time.Duration(c.MsgMs) * time.Millisecond) })
@@ -237,7 +243,7 @@ func c21Run(t *testing.T, cj []byte, res *vfResult) {
 		// ---- bring the pair to the chosen point
 		step := func(who *vfPeer, f func() error) error {
 			var e error
-			vfAs(who.name, func() { e = f() })
+			vfAs(map[string]string{"A": labA, "B": labB}[who.name], func() { e = f() })
 			return e
 		}
 		exchange := func() error {
@@ -307,7 +313,7 @@ func c21Run(t *testing.T, cj []byte, res *vfResult) {
 			bg.Add(1)
 			go func() {
 				defer bg.Done()
-				vfAs("A", func() {
+				vfAs(labA, func() {
 					for i := 0; !c.Coop || i < 12; i++ { // (bounded under the cooperative scheduler: a strict-priority strategy must not starve the close calls)
 						select {
 						case <-stop:
@@ -328,7 +334,7 @@ func c21Run(t *testing.T, cj []byte, res *vfResult) {
 			bg.Add(1)
 			go func() {
 				defer bg.Done()
-				vfAs("B", func() {
+				vfAs(labB, func() {
 					for i := 0; !c.Coop || i < 12; i++ {
 						select {
 						case <-stop:
@@ -347,7 +353,7 @@ func c21Run(t *testing.T, cj []byte, res *vfResult) {
 			bg.Add(1)
 			go func() {
 				defer bg.Done()
-				vfAs("A", func() {
+				vfAs(labA, func() {
 					for i := 0; !c.Coop || i < 12; i++ { // (bounded under the cooperative scheduler: a strict-priority strategy must not starve the close calls)
 						select {
 						case <-stop:
@@ -402,7 +408,7 @@ func c21Run(t *testing.T, cj []byte, res *vfResult) {
 			spawn(fmt.Sprintf("closer%d", i), func() {
 				time.Sleep(time.Duration(cl.DelayMs) * time.Millisecond)
 				var e error
-				vfAs("A", func() {
+				vfAs(labA, func() {
 					if cl.Graceful {
 						e = a.pc.GracefulClose()
 					} else {
@@ -413,7 +419,7 @@ func c21Run(t *testing.T, cj []byte, res *vfResult) {
 				var alive []string
 				if cl.Graceful && sched == nil {
 					time.Sleep(time.Nanosecond) // returns at the next quiescent instant
-					alive = c21Census("A")
+					alive = c21Census(labA)
 					mu.Lock()
 					censuses++
 					mu.Unlock()
@@ -470,7 +476,7 @@ func c21Run(t *testing.T, cj []byte, res *vfResult) {
 			r := snapshot[i]
 			logf("closer %d %s at +%dms: returned=%v after %v err=%v", i, kind(cl.Graceful), cl.DelayMs, r.returned, r.at, r.err)
 			if !r.returned {
-				res.violate("close-call-did-not-return:"+kind(cl.Graceful), fmt.Sprintf("phase %s, calls %v: %s #%d had not returned 180 s (fake) after the calls started; %s goroutines of A: %v", c.Phase, order, kind(cl.Graceful), i, coopNote, c21Census("A")))
+				res.violate("close-call-did-not-return:"+kind(cl.Graceful), fmt.Sprintf("phase %s, calls %v: %s #%d had not returned 180 s (fake) after the calls started; %s goroutines of A: %v", c.Phase, order, kind(cl.Graceful), i, coopNote, c21Census(labA)))
 			}
 			if r.returned && cl.Graceful && len(r.alive) > 0 {
 				res.violate("goroutine-alive-after-gracefulclose-returned", fmt.Sprintf("phase %s handler_ms %d: GracefulClose #%d returned after %v and these goroutines started by the connection were still alive at the next quiescent instant: %v", c.Phase, c.HandlerMs, i, r.at, r.alive))
@@ -556,7 +562,7 @@ func c21Run(t *testing.T, cj []byte, res *vfResult) {
 		}
 		for _, cl := range calls {
 			var e error
-			vfAs("A", func() { e = cl.f() })
+			vfAs(labA, func() { e = cl.f() })
 			var ise *rtcerr.InvalidStateError
 			if !errors.As(e, &ise) {
 				res.violate("call-after-close-not-invalidstate:"+cl.name, fmt.Sprintf("%s on the closed connection returned %v", cl.name, e))
